@@ -31,8 +31,8 @@ CHECKS = {
    note="GC return values are logged, not judged; time limits are modelled by a context whose Err() turns DeadlineExceeded at the n-th call.",
    ref="DESIGN.md §6 C04"),
  "C09": dict(engine="seq", technique="TLC-generated histories with bit-size changes and refused opens (KV.tla) replayed on the real store + TLC trace validation (StoreTrace.tla)",
-   text="Histories that reopen with a different index bit size (pairs from 8..17 quick, 8..24 thorough), or try to open with a different index/primary file-size limit, are generated from KV.tla and executed; TLC judges contents unchanged after re-bucketing and C01 behaviour afterwards, that a mismatching limit is refused with the specific error type (errors.As) leaving the directory byte-identical, and that the original settings reopen intact. The interrupted-translation clause is decided by the crash engine (C03 machinery) - see level_note.",
-   note="crash points inside the translation are not yet enumerated by this check in this revision; the first two sentences of the property are covered.",
+   text="Histories that reopen with a different index bit size (pairs from 8..17 quick, 8..24 thorough), or try to open with a different index/primary file-size limit, are generated from KV.tla and executed; TLC judges contents unchanged after re-bucketing and C01 behaviour afterwards, that a mismatching limit is refused with the specific error type (errors.As) leaving the directory byte-identical, and that the original settings reopen intact. The third sentence (interrupted re-bucketing) is decided by the crash engine: the translating open runs under strace, every intermediate image is opened with the new and with the old bit size, and CrashTrace.tla requires that an open that succeeds shows every key.",
+   note="crash points strictly inside the move phase of translateIndex are the known finding KF-C09-interrupted-translation (pinned witness, reported as KNOWN-FINDING); all other crash points of the translation are judged.",
    ref="DESIGN.md §6 C09"),
  "C07": dict(engine="seq", technique="Fsck.tla (F1-F5) evaluated by TLC on projections of the real files taken by an independent reader at every quiescent point of TLC-generated histories",
    text="Fsck.tla states the mutual-consistency rules as predicates over a projection of the directory: F1 buckets point at complete non-deleted records tagged with their bucket in files >= FirstFile; F2 entries point at complete non-deleted primary records of the recorded size whose digest carries the bucket bits and the stored prefix; F3 sorted/prefix-free/distinct locations; F4 no live location on the freelist or .gc; F5 header first-file numbers. An independent reader of the formats (fsckread, no shared code) projects the real directory after every Flush, GC cycle, reopen, bit-size change and iteration of all short histories and of simulated long ones, and TLC (FsckTrace.tla) evaluates the rules on each projection together with the live bucket table.",
@@ -58,6 +58,14 @@ CHECKS = {
    text="StoreConcGC.tla models one call, one commit, an index-GC cycle and a primary-GC cycle with relocation over abstract locations; TLC checks that the call's result and the final contents are undisturbed and exports one schedule per transition. Schedules are replayed by thread choice on real stores whose files were shaped by sequential setups (superseded index/primary records, pending freelist entries, every record in its own file, buckets evicted from the write pools). Lock probes park the flusher and each collector at every yield point and run every other thread to completion. Free-running rounds (4 single-writer writers, 4 readers, started flusher, 2 extra Flush callers, both collectors in a loop) are checked by RegTrace.tla (atomic-register conditions per key, final contents before/after reopen).",
    note="the two known findings KF-C06-idx-read-after-reap and KF-C06-stale-primary-loc are guarded out of the model schedules, their trigger predicates are evaluated in TLA+ on the recorded yield points (Window in LinTrace.tla), a bulk failure is attributed to one only if its trigger fired and every violated rule is among its symptoms; in the free-running rounds collector segments exclude foreground calls so that the known windows cannot open (collector vs flusher and collector vs collector remain unconstrained).",
    ref="DESIGN.md §3.6, §6 C06"),
+ "C03": dict(engine="crash", technique="crash-image enumeration from strace logs of the real process + real recovery on every image + TLC trace validation against Durable.tla (CrashTrace.tla); continuations judged by StoreTrace.tla / FsckTrace.tla", category="model_checking",
+   text="TLC-generated histories (flush-heavy, with GC cycles, Close/reopen) run in a child process under strace; from the log of its file-system calls (no source hooks) every intermediate directory image is rebuilt, plus byte prefixes of every appended or overwritten region (the reconstruction is asserted byte-identical to the real final directory). On each image the real OpenStore runs, every key is read, and a continuation (writes, flush, primary-GC cycles with relocation, index GC, reopen by rescan) is executed. CrashTrace.tla decides with Durable.tla: the open succeeds and every key reads the value of the last completed Flush/Close/reopen or one acknowledged since (or the call in flight); the continuation must behave as C01 (StoreTrace) and leave consistent files (FsckTrace F1-F5).",
+   note="process crash only (what a completed system call wrote survives; no fsync model); quick tier samples ~110 images per scenario, thorough enumerates all images and all byte prefixes; continuation failures on images whose crash tore an append to a primary file are attributed to the known finding KF-C03-torn-primary-tail (recovery itself is still judged on those images).",
+   ref="DESIGN.md §2.4, §3.5, §6 C03"),
+ "C10": dict(engine="crash", technique="legacy stores written by the harness, upgraded by the real OpenStore in a child under strace; every intermediate image reopened by the real code; TLC trace validation (CrashTrace.tla, mode upgrade) + continuation by StoreTrace/FsckTrace",
+   text="The harness writes legacy-format stores itself (version-2 single-file index behind its header, unversioned single-file primary, freelist pending or already applied; contents, freed records, bit sizes and chunk limits from 30 B - a chunk per record - to 1 GiB drawn per scenario). The upgrading open runs under strace; the completed upgrade and EVERY intermediate image (index chunking, freelist application, primary chunking, header writes, per-file remapping with its .tmp/.remapped protocol) is opened again by the real code. TLC decides: the open succeeds and the contents equal the legacy map exactly; then the store must behave as C01 through a continuation with GC cycles.",
+   note="legacy files are produced by repackaging a store built with 1 GiB limits (same record encoding); corrupted legacy files (entries without primary data) are not generated in this revision, so the 'dropped rather than mis-pointed' clause is only exercised through freed records.",
+   ref="DESIGN.md §3.11, §6 C10"),
 }
 
 NOT_APPLICABLE = [
@@ -100,6 +108,7 @@ def main():
             {"name": "bstore", "path": "harness/cmd/vrun/bstore.go + spec/Blockstore.tla + spec/BlockstoreTrace.tla", "serves_properties": ["C15"], "kind_free_text": "TLC state-graph replay on real HashedBlockstore + TLC trace monitor"},
             {"name": "flushrate", "path": "harness/cmd/vrun/flushrate.go + harness/internal/sched + spec/FlushRate.tla + spec/FlushRateTrace.tla", "serves_properties": ["C12"], "kind_free_text": "TLC schedules replayed by a cooperative scheduler at yield points (build tag verif); TLC trace monitor"},
             {"name": "conc", "path": "harness/cmd/vrun/conc.go + harness/cmd/vrun/stress.go + harness/internal/sched + spec/StoreConc.tla + spec/StoreConcGC.tla + spec/LinTrace.tla + spec/RegTrace.tla", "serves_properties": ["C05", "C06"], "kind_free_text": "TLC schedules replayed by a cooperative scheduler; TLC linearizability / atomic-register monitors over recorded histories"},
+            {"name": "crash", "path": "harness/cmd/vrun/crash.go + harness/cmd/vrun/legacy.go + harness/internal/straceimg + spec/Durable.tla + spec/CrashTrace.tla + tools/c03.py", "serves_properties": ["C03", "C09", "C10"], "kind_free_text": "strace-based crash-image enumeration of the real process (no hooks), real recovery on every image, TLC trace monitor"},
             {"name": "fcache", "path": "harness/cmd/vrun/fcache.go + spec/FileCache.tla + spec/FileCacheTrace.tla", "serves_properties": ["C14"], "kind_free_text": "TLC state-graph replay on real FileCache + TLC trace monitor"},
             {"name": "reclist", "path": "harness/cmd/vrun/reclist.go + spec/RecordList.tla + spec/RecordListTrace.tla", "serves_properties": ["C08"], "kind_free_text": "TLC state-graph replay on real index.Index + TLC trace monitor"},
         ],
